@@ -17,6 +17,22 @@ CLAIMS["C20"] = dict(
     text="Solver-decided, bounded: (1) totality of parse_frame per type byte over arbitrary bytes (6-7 bytes, every length): frame with 0<consumed<=len, need-more, or error, no panic; (2) round trip parse(serialize(f))==(f,len) for every leaf frame family with symbolic payload bytes (line types without CR/LF, bulk with any bytes, nil forms, integer literals); (3) the prefix lemma of RespParser::parse for every split point, from which chunk independence follows by induction over chunks; (4) aggregate parsers never reserve more elements than bytes received.",
     note=TB + " Outside: doubles (dec2flt/Ryu not tractable), symbolic integers through std Display/FromStr (literal table instead), frames nested inside aggregates for round trip/chunking (drop-glue recursion of RespFrame unrolls beyond memory), payloads > 3 bytes.")
 
+TM = ("Trusted: rustc's MIR dump (nightly, -Zunpretty=mir) as the representation of the code; the MIR parser (self-check: every block of every function in the dump must parse); "
+      "the path encoding (acyclic fragment, back edges cut with loop-modified locals havocked = one arbitrary iteration; calls uninterpreted except the small reviewed table in mir/sym.py; "
+      "edges into `unreachable` blocks infeasible); z3 (cvc5 cross-check on the dumped SMT-LIB2 queries); the allow-lists / specification sets in /verif/reg. ")
+
+CLAIMS["C17"] = dict(
+    engine="M",
+    technique="MIR -> SMT path encoding (own encoder, z3 + cvc5): unreachability of non-allow-listed calls under 'password set and not authenticated'",
+    text="Solver-decided over the control skeleton of the real dispatch (MIR of the current tree): under the assumption that requirepass is set and the connection's state is not Authenticated, every call site of Server::process_frame and of Server::process_connection (descending into closure bodies) is either shown unreachable by the solver or is in the reviewed allow-list (pure utilities, own-connection I/O, handle_auth, handle_ping, reply constructors). A polarity/vacuity twin shows the dispatch IS reachable when authenticated.",
+    note=TM + "Not decided: what handle_auth compares (String equality of the supplied bytes with the configured password is read off the MIR structurally only), timing side channels, what handlers do after authentication, other connection's state (single-connection assumption).")
+
+CLAIMS["C05"] = dict(
+    engine="M+K",
+    technique="MIR -> SMT path encoding of the frame loop (exactly-one-reply, no early exit) + Kani bounded model checking of serializer/parser framing",
+    text="(M) one arbitrary iteration of the frame loop of Server::process_connection pushes exactly one response on every path and cannot leave the loop mid-iteration (an Err of process_frame becomes an error reply). (K) every reply shape with symbolic payloads serialises to bytes that parse back as exactly one frame consuming exactly those bytes, for arbitrary payload bytes including CR/LF; segmentation independence via the C20 prefix lemma.",
+    note=TB + TM + "Reduced scope: socket behaviour (partial writes, flush retries), the parse-error path (protocol violations are logged and the connection is left waiting - see known findings), ordering across connections, pub/sub push frames.")
+
 NOT_APPLICABLE = {}
 
 NOTES = ("Solver-based checking of the real code. Engine K = Kani harness overlays appended to a scratch copy of /repo's current working tree "
